@@ -23,7 +23,7 @@ class PRec:
         self.data, self.back = data, back
 
 
-def parse(data, strict=True):
+def parse(data, strict=True, check_rec_tid=True):
     """-> list of PTxn.  strict: any trailing or inconsistent byte raises BadFile."""
     if data[:4] not in MAGIC:
         raise BadFile('bad magic %r' % data[:4])
@@ -53,7 +53,7 @@ def parse(data, strict=True):
             oid, rtid, prev, tloc, vlen, plen = struct.unpack('>8s8sQQHQ', data[rpos:rpos + 42])
             if vlen:
                 raise BadFile('version length at %d' % rpos)
-            if rtid != tid:
+            if check_rec_tid and rtid != tid:
                 raise BadFile('record tid differs from transaction tid at %d' % rpos)
             if tloc != pos:
                 raise BadFile('record at %d points to transaction at %d, is in %d' % (rpos, tloc, pos))
